@@ -111,6 +111,11 @@ def first_body_node_loc(run):
     decorator line of a decorated def/class in first position); None for an empty body"""
     import supp.scope as S
     f = loader.load('supp.scope', 'get_first_body_node_loc')
+    run.concretise = lambda model, ob: {'input': 'a parameter used in the decorator of an async def that is the first statement of the body', 'script': (
+        'import sys; sys.path.insert(0, %r)\nfrom supp.linter import lint\nfrom supp.project import Project\n'
+        'src = "def outer(p):\\n    @deco(p)\\n    async def inner():\\n        pass\\n    return inner\\n"\n'
+        'r = [t[:4] for t in lint(Project(["/x"]), src) if t[1].endswith(": p")]\n'
+        'if r:\n    print("REPRODUCED: %%r" %% (r,)); sys.exit(1)\nprint("not reproduced")\n') % core.REPO}
 
     def go(path):
         prove('empty-body-none', f([]) is None, path=path)
@@ -133,14 +138,23 @@ def first_body_node_loc(run):
     def body2():
         pd, pf = Pos('decorator'), Pos('def')
         assume(z3.And(pd.l >= 1, pd.c >= 0, pf.l >= 1, pf.c >= 0, pd.l < pf.l))
-        fn = pf.put(ast.FunctionDef(name='g', args=ast.arguments(posonlyargs=[], args=[], kwonlyargs=[], kw_defaults=[], defaults=[]),
+        kind = (ast.FunctionDef, ast.AsyncFunctionDef, ast.ClassDef)[core.choice(3)]
+        holder['kind'] = kind.__name__
+        if kind is ast.ClassDef:
+            fn = pf.put(ast.ClassDef(name='g', bases=[], keywords=[], body=[ast.Pass()],
+                                     decorator_list=[pd.put(ast.Name(id='d', ctx=ast.Load()))], type_params=[]))
+            holder.update(pd=pd, pf=pf)
+            return f([fn])
+        fn = pf.put(kind(name='g', args=ast.arguments(posonlyargs=[], args=[], kwonlyargs=[], kw_defaults=[], defaults=[]),
                                     body=[ast.Pass()], decorator_list=[pd.put(ast.Name(id='d', ctx=ast.Load()))], type_params=[]))
         holder.update(pd=pd, pf=pf)
         return f([fn])
 
     def on2(p, out):
         ok = out[0] == 'ok' and out[1] is not None
+        run.case = holder.get('kind')
         prove('decorated-first-statement-starts-at-its-decorator-line',
               z3.And(lift(out[1][0]) == holder['pd'].l, lt((lift(out[1][0]), lift(out[1][1])), holder['pf'].t)) if ok else False,
               clause='not after the decorator line (the decorator is the first token of the body)', path=p)
     core.explore(body2, on2)
+    run.case = None
